@@ -14,11 +14,11 @@ trap cleanup EXIT
 demo_dir=$(python3 -c "import json,sys;print(json.load(open('$src/meta.json')).get('demo_dir','.'))")
 demo_cmd=$(python3 -c "import json,sys;print(json.load(open('$src/meta.json')).get('demo_cmd',''))")
 cd "$wt"
-copy_demo() { for f in "$src"/*_test.go "$src"/demo*.go; do [ -e "$f" ] && mkdir -p "$wt/$demo_dir" && cp "$f" "$wt/$demo_dir/"; done; }
+copy_demo() { mkdir -p "$wt/$demo_dir" && cp "$src/demo_test.go" "$wt/$demo_dir/zz_seeded_demo_test.go"; }
 echo "== without patch: demo must pass"
 copy_demo
 if bash -c "$demo_cmd" > "$wt/demo_without.log" 2>&1; then echo "demo passes without patch: OK"; else echo "demo FAILS without patch: INVALID"; tail -20 "$wt/demo_without.log"; exit 1; fi
-rm -f "$wt/$demo_dir"/demo*_test.go "$wt/$demo_dir"/demo*.go
+rm -f "$wt/$demo_dir"/zz_seeded_demo_test.go
 git checkout -q -- . ; git clean -fdq path internal 2>/dev/null
 echo "== with patch: build + existing suite must pass"
 git apply "$src/patch.diff" || { echo "patch does not apply: INVALID"; exit 1; }
